@@ -34,3 +34,33 @@ class FastModel(Model):
         """clears all current policy."""
         super().clear_policy()
         self.model["p"]["p"].policy = FastPolicy(self._cache_key_order)
+
+    def _on_list(self, method, sec, ptype, *args):
+        """runs a Policy method that needs a plain list (it rebinds the policy, asks for positions or
+        assigns by position) on the rules of the indexed policy, then indexes the resulting rules again.
+        The indexed policy stays in place when the method raises."""
+        if not (sec == "p" and ptype == "p" and sec in self.keys() and ptype in self[sec]):
+            return method(sec, ptype, *args)
+        assertion = self[sec][ptype]
+        indexed = assertion.policy
+        if not isinstance(indexed, FastPolicy):
+            return method(sec, ptype, *args)
+
+        assertion.policy = list(indexed)
+        try:
+            result = method(sec, ptype, *args)
+            reindexed = FastPolicy(self._cache_key_order)
+            for rule in assertion.policy:
+                reindexed.append(rule)
+            indexed = reindexed
+            return result
+        finally:
+            assertion.policy = indexed
+
+    def remove_filtered_policy(self, sec, ptype, field_index, *field_values):
+        """removes policy rules based on field filters from the model."""
+        return self._on_list(super().remove_filtered_policy, sec, ptype, field_index, *field_values)
+
+    def remove_filtered_policy_returns_effects(self, sec, ptype, field_index, *field_values):
+        """removes policy rules based on field filters from the model and returns them."""
+        return self._on_list(super().remove_filtered_policy_returns_effects, sec, ptype, field_index, *field_values)
